@@ -1030,8 +1030,10 @@ class System:
 
     @property
     def root_names(self) -> Collection[str]:
-        """The top-level package/module names in this system."""
-        return {obj.name for obj in self.rootobjects}
+        """The top-level package/module names in this system, in the order
+        the roots were added (a set would make the guessed project name
+        depend on the interpreter's hash seed)."""
+        return tuple(dict.fromkeys(obj.name for obj in self.rootobjects))
 
     def progress(self, section: str, i: int, n: Optional[int], msg: str) -> None:
         if n is None:
